@@ -72,6 +72,11 @@ CHECKS = {
          "DESIGN.md §7 C08",
          "go/types is the specification of selector resolution; empty interfaces are excluded (member access on `any` is an XGo extension, C11).",
          "property-based testing: generated type graphs and selectors, differential against go/types"),
+ "C18": ("exploration",
+         "Rounds of 16-48 different generated programs are built simultaneously, each on its own goroutine with its own FileSet, Package and importer, released together, under varying GOMAXPROCS, in a -race build; the runner turns any data-race report of a worker into a violation, and every program's output must be byte-equal to its sequential build. Exploration of the schedules that occur, not of all interleavings: the harness does not own the Go scheduler.",
+         "DESIGN.md §7 C18, §11",
+         "Relies on the Go race detector (reports unsynchronised conflicting accesses that actually happen in the observed execution). A write to a shared singleton that every build performs is observed with near certainty; a race that needs a rare program feature on two goroutines at once may be missed.",
+         "concurrent stress testing under the race detector with a sequential-equivalence oracle"),
  "C19": ("exploration",
          "Model-based state-machine testing (rapid): random Set/Delete/At/Len/Keys/Iterate/String histories over a pool of generated type keys containing structurally identical but pointer-distinct rebuilds, aliases, permuted/flattened interfaces, permuted unions, renamed type parameters, separately created instantiations, deliberate hash-collision twins and same-named foreign types; after every step every observable is compared with an association list over types.Identical, and Identical=>equal-hash is checked on all pool pairs. Sampling, not proof: right level because the property quantifies over unbounded histories and type shapes.",
          "DESIGN.md §7 C19",
